@@ -20,6 +20,8 @@ Cat3(a, b, c) == Cat(Cat(a, b), c)
 Nest(k, a) == IF a = NIL \/ k = 0 THEN a ELSE [o |-> "nest", k |-> k, a |-> a]
 Group(a) == IF a.o \in {"nil", "t", "group"} THEN a ELSE [o |-> "group", a |-> a]
 Alt(b, f) == [o |-> "alt", b |-> b, f |-> f]        \* b.flat_alt(f): b when broken, f when flat
+Align(a) == IF a = NIL THEN a ELSE [o |-> "align", a |-> a]   \* a.align(): column(|c| nesting(|n| a.nest(c - n))) — indentation := column
+Hang(k, a) == Align(Nest(k, a))                      \* a.hang(k) = a.nest(k).align()
 SPACE == T(" ")
 LINE  == Alt(HL, SPACE)                              \* arena.line()
 LINE_ == Alt(HL, NIL)                                \* arena.line_()
@@ -54,6 +56,7 @@ Fit(fc, bc, flat, pos, w) ==
        [] d.o = "alt" -> Fit(Push(r, IF flat THEN d.f ELSE d.b), bc, flat, pos, w)
        [] d.o = "nest" -> Fit(Push(r, d.a), bc, flat, pos, w)
        [] d.o = "group" -> Fit(Push(r, d.a), bc, flat, pos, w)
+       [] d.o = "align" -> Fit(Push(r, d.a), bc, flat, pos, w)
 
 (* out: <<finished lines, current line>> *)
 RECURSIVE Best(_, _, _, _)        \* bc: stack of [ind, mode, doc]
@@ -67,6 +70,7 @@ Best(bc, pos, out, w) ==
                            THEN Best(Push(r, [ind |-> c.ind, mode |-> "flat", doc |-> d.a]), pos, out, w)
                            ELSE Best(Push(r, [c EXCEPT !.doc = d.a]), pos, out, w)
        [] d.o = "nest"  -> Best(Push(r, [ind |-> c.ind + d.k, mode |-> c.mode, doc |-> d.a]), pos, out, w)
+       [] d.o = "align" -> Best(Push(r, [ind |-> pos, mode |-> c.mode, doc |-> d.a]), pos, out, w)
        [] d.o = "hl"    -> LET i == IF r = <<>> THEN c.ind ELSE Top(r).ind      \* indentation of the NEXT command
                            IN Best(r, i, <<Append(out[1], out[2]), Spaces(i)>>, w)
        [] d.o = "t"     -> Best(r, pos + d.n, <<out[1], out[2] \o d.s>>, w)
@@ -88,5 +92,5 @@ RECURSIVE FlatLen(_)
 FlatLen(d) == CASE d.o = "nil" -> 0  [] d.o = "t" -> d.n  [] d.o = "hl" -> 0
                 [] d.o = "cat" -> FlatLen(d.a) + FlatLen(d.b)
                 [] d.o = "alt" -> FlatLen(d.f)
-                [] d.o \in {"nest", "group"} -> FlatLen(d.a)
+                [] d.o \in {"nest", "group", "align"} -> FlatLen(d.a)
 =============================================================================
